@@ -117,6 +117,12 @@ func runStateful19(c *Ctx) {
 		if cf.proto == 4 {
 			spec.Plugins4 = []chainPlug{cf.plug}
 			spec.Dgrams = battery4()
+			if cf.plug.Name == "file" && len(cf.plug.Args) >= 2 && cf.plug.Args[1] == "autorefresh" {
+				// (the child rewrites the lease file while these are handled: many look-ups of unknown and known clients against many reloads)
+				for k := 0; k < 250; k++ {
+					spec.Dgrams = append(spec.Dgrams, mk4(1, []byte{2, 0x19, 0, 0, byte(k >> 8), byte(k)}))
+				}
+			}
 		} else {
 			spec.Plugins6 = []chainPlug{cf.plug}
 			spec.Dgrams = battery6()
